@@ -138,6 +138,10 @@ def proxied_worker(args, scratch):
             hs, hfeat = gen_headers(r)
             hs.append(("x-vf-id", vid))
             body, chunked, bfeat = b"", None, "nobody"
+            if method in ("POST", "PUT", "PATCH") and r.random() < 0.12:
+                # upload clients (curl, .NET) announce the body with Expect: 100-continue; it is a client header like any other
+                hs.append((r.choice(["Expect", "expect"]), "100-continue"))
+                hfeat = hfeat + ["expect-100-continue"]
             if method in ("POST", "PUT", "PATCH"):
                 form = r.random()
                 if form < 0.2:
